@@ -11,6 +11,7 @@ import (
 	"verifharness/internal/core"
 	"verifharness/internal/gen"
 	"verifharness/internal/mon"
+	"verifharness/internal/ref"
 )
 
 func init() {
@@ -175,6 +176,57 @@ func runC17(c *core.Ctx) {
 			cs.Distinct(valueDigest(mon.TypeName(p), p))
 			cs.Count("list-length/" + mon.TypeName(p))
 			c17Format(cs, p, mon.TypeName(p)+fmt.Sprintf(" (list of %d)", n))
+		}
+	})
+	// (2c) transport-cc feedback whose chunks describe about 2^16 packets (65535, exactly 65536, a
+	// little more, twice that), hand-built and decoded: a formatter that summarises the chunks
+	// meets every total a 16-bit conversion turns into 0 or 1
+	c.Section("twcc-totals", c.N(400, 20000), func(cs *core.Case) {
+		r := cs.R
+		total := r.Pick(65527, 65528, 65534, 65535, 65536, 65536, 65537, 65542, 73719, 131071, 131072, 131073)
+		var chunks []rtcp.PacketStatusChunk
+		left := total
+		sym := uint16(r.Pick(0, 0, 1, 2))
+		for left > 0 {
+			run := 8191
+			if run > left {
+				run = left
+			}
+			if left <= 14 && r.Bool() {
+				chunks = append(chunks, &rtcp.StatusVectorChunk{Type: 1, SymbolSize: 0, SymbolList: make([]uint16, 14)})
+				left -= 14
+				continue
+			}
+			chunks = append(chunks, &rtcp.RunLengthChunk{PacketStatusSymbol: sym, RunLength: uint16(run)})
+			left -= run
+			if r.Chance(1, 6) {
+				sym = uint16(r.Intn(3))
+			}
+		}
+		count := uint16(r.Pick(65535, 65535, 65534, 57346, 60000, 1, total&0xFFFF))
+		t := &rtcp.TransportLayerCC{Header: rtcp.Header{Count: 15, Type: 205, Length: uint16(4 + len(chunks)/2)}, SenderSSRC: r.U32(), MediaSSRC: r.U32(), BaseSequenceNumber: r.U16(), PacketStatusCount: count, PacketChunks: chunks}
+		cs.Distinct(valueDigest("tot", t))
+		cs.Count("twcc-totals/built")
+		c17Format(cs, t, fmt.Sprintf("TransportLayerCC (chunks describe %d packets, status count %d)", total, count))
+		// and the same chunks on the wire, decoded
+		b := make([]byte, 20, 20+2*len(chunks)+4)
+		copy(b[4:], r.Bytes(8))
+		b[14], b[15] = byte(count>>8), byte(count)
+		for _, ch := range chunks {
+			w, err := ref.TWCCChunkWord(ch)
+			if err != nil {
+				return
+			}
+			b = append(b, byte(w>>8), byte(w))
+		}
+		for len(b)%4 != 0 {
+			b = append(b, 0)
+		}
+		b[0], b[1] = 0x8F, 205
+		gen.FitLength(b)
+		if ps, err, pan := gUnmarshal(b); pan == "" && err == nil && len(ps) == 1 {
+			cs.Count("twcc-totals/decoded")
+			c17Format(cs, ps[0], fmt.Sprintf("decoded TransportLayerCC (chunks describe %d packets, status count %d)", total, count))
 		}
 	})
 	// (3) empty and maximal lists, extreme field values
